@@ -400,6 +400,11 @@ func (lc *LocalClient) FullNamespacePath(path string) (string, error) {
 		log.Warn("Failed to join path: %s: %v", path, err)
 		return "", fmt.Errorf("failed to join path: %s: %w", path, err)
 	}
+	// a path that cleans to "." names the storage directory itself; with the file suffix
+	// appended it would become a sibling of the storage directory (<storage>.json)
+	if relPath == "." {
+		return "", fmt.Errorf("invalid path: %s", path)
+	}
 	fullPath := filepath.Join(lc.storagePath, relPath) + lc.FileSuffix
 	return fullPath, nil
 }
